@@ -19,6 +19,7 @@ import (
 	"github.com/magisterquis/curlrevshell/internal/iobroker"
 	"github.com/magisterquis/curlrevshell/lib/opshell"
 	"github.com/magisterquis/curlrevshell/verifx/quiesce"
+	"github.com/magisterquis/curlrevshell/verifx/rcall"
 )
 
 // StartSpec is one kind of connection attempt a profile may start.
@@ -252,7 +253,7 @@ func New(p *Profile) *World {
 		c03:       map[int]*c03State{},
 	}
 	var err error
-	if w.b, err = iobroker.New(w.ich, w.och); nil != err {
+	if w.b, err = newBroker(w.ich, w.och); nil != err {
 		panic(err)
 	}
 	w.b.AddEventListener(w.evL)
@@ -925,4 +926,11 @@ func leakDesc(gs []quiesce.G) string {
 		ss = append(ss, fmt.Sprintf("%s [%s]", topFunc(g), g.State))
 	}
 	return strings.Join(ss, ", ")
+}
+
+// newBroker calls iobroker.New (through reflection: see package rcall).
+func newBroker(ich chan string, och chan opshell.CLine) (*iobroker.Broker, error) {
+	res := rcall.Call(iobroker.New, ich, och)
+	b, _ := res[0].(*iobroker.Broker)
+	return b, rcall.Err(res)
 }
